@@ -80,14 +80,20 @@ def main(argv=None):
         retry = [r["unit"] for r in results if r["mode"] != "R" and not r["crashed"] and 0 < sum(
             1 for o in r["obligations"] if o["expect"] == "proved" and o["status"] == "unknown" and o["kind"] != "unsupported") <= 6]
         if retry and not os.environ.get("PYVC_TIMEOUT_SCALE"):
-            os.environ["PYVC_TIMEOUT_SCALE"] = "3"
+            # solver budgets are wall-clock: on a machine whose cores are all busy the same query gets a fraction of a core, so the
+            # second attempt's factor grows with the load average (3x idle, up to 12x when every core is taken)
+            try:
+                load = os.getloadavg()[0] / float(os.cpu_count() or 1)
+            except OSError:
+                load = 0.0
+            os.environ["PYVC_TIMEOUT_SCALE"] = "%.1f" % (3.0 * max(1.0, min(4.0, 1.0 + 3.0 * load)))
             try:
                 again = U.run_units(prop, a.tier, seed, retry, 2)
             finally:
                 del os.environ["PYVC_TIMEOUT_SCALE"]
             byname = {r["unit"]: r for r in again if not r["crashed"]}
             results = [byname.get(r["unit"], r) for r in results]
-            print("second attempt with 3x solver budget for %d unit(s): %s" % (len(retry), "; ".join(u[:60] for u in retry)))
+            print("second attempt with a larger solver budget (3x, more under machine load) for %d unit(s): %s" % (len(retry), "; ".join(u[:60] for u in retry)))
     except Exception:
         traceback.print_exc()
     findings = load_findings()
